@@ -1,5 +1,6 @@
 import RedisVerif.Model.NMap
 import RedisVerif.Model.Crdt
+import RedisVerif.Model.HashBytes
 
 /-
   M8 (anti-entropy half) — model of the Merkle digest and of one digest-driven sync exchange.
@@ -96,8 +97,79 @@ def pinnedStream : ValueStream := fun v =>
 def canonicalStream : ValueStream := fun v =>
   serStamp v.ts ++ (serCrdt v.crdt ++ (serOptCounts v.vc ++ (serOptNat v.expiry ++ serOptNat v.rf)))
 
+/-! ### the BYTES `canonical_hash` writes into the `DefaultHasher`
+
+  `canonicalStream` above is the shape of the stream (one word per hashed item); `byteStream` is
+  the stream itself, byte for byte, as Rust's `Hash` impls produce it (`Model/HashBytes.lean`):
+  what `sip13` of it returns is compared with the real `KeyDigest::new(..).value_hash` for every
+  value of every run.  `kb` decodes a string code (set element, hash field name) into its bytes
+  (`HB.keyStr` in the driver).  Differences to the word stream that matter:
+  * a `String` is hashed as its bytes followed by `0xff` — NOT length-prefixed: unambiguous only
+    because a UTF-8 string never contains `0xff` (`StrSafe`);
+  * `Vec<&String>` / the OR-set elements / the hash fields are `sort_unstable`d by the strings'
+    BYTES (`String: Ord`), not in the (length-first) order of the model's key codes. -/
+
+open HB in
+/-- `lww(r, h)`: `r.value.as_ref().map(|v| v.as_bytes()).hash(h);
+    (r.timestamp.time, r.timestamp.replica_id.0, r.tombstone).hash(h)` -/
+def bLww (r : Lww) : List Nat :=
+  (match r.value with
+    | none => le64 0
+    | some b => le64 1 ++ (le64 b.length ++ b))
+  ++ (le64 r.ts.time ++ (le64 r.ts.rid ++ [if r.tomb then 1 else 0]))
+
+open HB in
+/-- the sorted tag list of one OR-set element: `Vec<(u64, u64)>` of `(replica_id, sequence)`; a
+    tag code is `replica_id * 2^64 + sequence`, the canonical set is in code order =
+    `(replica_id, sequence)` order -/
+def bTags (t : NSet) : List Nat :=
+  le64 t.length ++ t.flatMap fun c => le64 (c / 2 ^ 64) ++ le64 (c % 2 ^ 64)
+
+/-- entries keyed by a string, `sort_unstable`d by the string's bytes -/
+def sortByStr {β : Type} (kb : Nat → List Nat) (m : List (Nat × β)) : List (List Nat × β) :=
+  HB.isort (fun a b => HB.bytesLe a.1 b.1) (m.map fun p => (kb p.1, p.2))
+
+/-- one string-keyed entry: the string (`0xff`-terminated), then its payload -/
+def strEntry {β : Type} (g : β → List Nat) (p : List Nat × β) : List Nat := (p.1 ++ [255]) ++ g p.2
+
+open HB in
+def bCrdt (kb : Nat → List Nat) : Crdt → List Nat
+  | .lww r => 0 :: bLww r
+  | .gcounter c => 1 :: pairsBytes c
+  | .pncounter p n => 2 :: (pairsBytes p ++ pairsBytes n)
+  | .gset s =>
+    let strs := isort bytesLe (s.map kb)
+    3 :: (le64 strs.length ++ strs.flatMap fun b => b ++ [255])
+  | .orset e nx =>
+    let es := sortByStr kb e
+    4 :: ((le64 es.length ++ es.flatMap (strEntry bTags)) ++ pairsBytes nx)
+  | .hash h =>
+    let fs := sortByStr kb h
+    5 :: (le64 fs.length ++ fs.flatMap (strEntry bLww))
+
+open HB in
+/-- the bytes `canonical_hash(value, h)` writes: `(time, replica).hash; <tag>u8.hash; <content>;
+    vector_clock.is_some().hash; [counts(vc)]; (expiry_ms, replication_factor).hash` -/
+def byteStream (kb : Nat → List Nat) : ValueStream := fun v =>
+  le64 v.ts.time ++ (le64 v.ts.rid ++ (bCrdt kb v.crdt ++
+    ((match v.vc with
+      | none => [0]
+      | some m => 1 :: pairsBytes m) ++ (optU64 v.expiry ++ optU8 v.rf))))
+
+/-- the three uses of `DefaultHasher` as ONE byte-stream hash `sip`:
+    * `key.hash(h)` → the key's bytes and `0xff`;
+    * `canonical_hash(value, h)` → the value hasher is `sip` itself (on `byteStream`);
+    * `from_digests` / `combine` → every `u64` word as 8 little-endian bytes -/
+def sipHasher (sip : List Nat → Nat) (kb : Nat → List Nat) : Hasher :=
+  { key := fun k => sip (HB.strBytes kb k)
+    val := sip
+    words := fun ws => sip (ws.flatMap HB.le64) }
+
 /-- the value stream of the current tree -/
-def currentStream : ValueStream := canonicalStream
+def currentStream : ValueStream := byteStream HB.keyStr
+
+/-- the hasher of the current tree: SipHash-1-3 with the zero key (`DefaultHasher::new()`) -/
+def currentHasher : Hasher := sipHasher Sip.sip13 HB.keyStr
 
 /-- `KeyDigest::new(key, value)` -/
 def keyDigest (H : Hasher) (vs : ValueStream) (k : Nat) (v : RV) : KeyDigest :=
@@ -314,6 +386,16 @@ def getKeysInBuckets (arr : Arrange) (H : Hasher) (vs : ValueStream) (depth limi
     (s : NMap RV) (buckets : List Nat) : List (Nat × RV) :=
   (arr ((iter π s).filter fun p => buckets.contains (bucketOf depth (keyDigest H vs p.1 p.2)))).take limit
 
+/-- compiled form: the bucket of an entry needs its KEY hash only (the literal transcription builds
+    the whole `KeyDigest`, i.e. also hashes the value, for every entry of every filter) -/
+def getKeysInBucketsFast (arr : Arrange) (H : Hasher) (_vs : ValueStream) (depth limit : Nat) (π : List Nat)
+    (s : NMap RV) (buckets : List Nat) : List (Nat × RV) :=
+  (arr ((iter π s).filter fun p => buckets.contains (H.key p.1 % 2 ^ depth))).take limit
+
+@[csimp] theorem getKeysInBuckets_eq_fast : @getKeysInBuckets = @getKeysInBucketsFast := by
+  funext arr H vs depth limit π s buckets
+  rfl
+
 /-- `ShardReplicaState::apply_remote_delta` on `replicated_keys` (the Lamport clock and the
     executor write-through of `SimulatedNode::apply_remote_deltas` are not part of the state
     the digests are computed from) -/
@@ -368,6 +450,20 @@ def responseKeysWith (ord : RespOrder) (H : Hasher) (vs : ValueStream) (depth li
     match ord with
     | .filterThenTake => ((iter π s).filter inReq).take limit
     | .takeThenFilter => ((iter π s).take limit).filter inReq
+
+def responseKeysWithFast (ord : RespOrder) (H : Hasher) (_vs : ValueStream) (depth limit : Nat) (π : List Nat)
+    (s : NMap RV) (requested : Option (List Nat)) : List (Nat × RV) :=
+  match requested with
+  | none => (iter π s).take limit
+  | some buckets =>
+    let inReq := fun (p : Nat × RV) => buckets.contains (H.key p.1 % 2 ^ depth)
+    match ord with
+    | .filterThenTake => ((iter π s).filter inReq).take limit
+    | .takeThenFilter => ((iter π s).take limit).filter inReq
+
+@[csimp] theorem responseKeysWith_eq_fast : @responseKeysWith = @responseKeysWithFast := by
+  funext ord H vs depth limit π s requested
+  cases requested <;> rfl
 
 def currentRespOrder : RespOrder := .filterThenTake
 
@@ -459,6 +555,109 @@ def syncRound (le : Nat → Nat → Bool) (H : Hasher) (depth limit : Nat) (πa 
 def pull (H : Hasher) (depth limit : Nat) (full : Bool) (πr πp : List Nat) (r p : NMap RV) :
     Bool × List Nat × List (Nat × RV) × NMap RV :=
   pullWith currentRespOrder H currentSortBucket currentStream depth limit full πr πp r p
+
+/-! ## `AntiEntropyManager` as a state machine (session 3)
+
+  The message protocol with its bookkeeping: digests are MESSAGES (they carry the sender's replica
+  id and generation and may be processed late), a request names the buckets the requester found
+  divergent when it processed the peer's digest, the responder answers from its CURRENT state and
+  the requester merges into its CURRENT state — whatever happened in between. -/
+
+/-- a `StateDigest` as sent: with `replica_id` and `generation` -/
+structure TDigest where
+  rid : Nat
+  generation : Nat
+  d : StateDigest
+  deriving DecidableEq, Repr, Inhabited
+
+/-- `AntiEntropyManager` (`pending_requests` / `pending_responses` have no producer in src/: they
+    stay empty and are not modelled) -/
+structure Mgr where
+  rid : Nat
+  generation : Nat
+  depth : Nat          -- `config.merkle_tree_depth` as configured
+  limit : Nat          -- `config.max_keys_per_sync` as configured
+  interval : Nat       -- `config.sync_interval_ms`
+  autoSync : Bool      -- `config.auto_sync_on_heal`
+  peerDigests : NMap TDigest
+  divergentPeers : NSet
+  lastSync : NMap Nat
+  deriving DecidableEq, Repr, Inhabited
+
+def Mgr.new (rid depth limit interval : Nat) (autoSync : Bool) : Mgr :=
+  { rid := rid, generation := 0, depth := depth, limit := limit, interval := interval, autoSync := autoSync,
+    peerDigests := [], divergentPeers := [], lastSync := [] }
+
+/-- `on_local_write` -/
+def Mgr.onLocalWrite (m : Mgr) : Mgr := { m with generation := m.generation + 1 }
+
+/-- `generate_digest(keys)` -/
+def Mgr.generateDigest (H : Hasher) (m : Mgr) (π : List Nat) (s : NMap RV) : TDigest :=
+  ⟨m.rid, m.generation, digest H (effectiveDepth currentDepthBound m.depth) π s⟩
+
+/-- `current_time - last_sync >= sync_interval_ms` on `u64`: a clock that went backwards
+    underflows (a panic with overflow checks, a wrap-around — "due" — without) -/
+inductive Due where
+  | yes | no | underflow
+  deriving DecidableEq, Repr
+
+def dueAt (interval last now : Nat) : Due :=
+  if now < last then .underflow else if now - last ≥ interval then .yes else .no
+
+/-- `should_sync(peer, current_time)` -/
+def Mgr.shouldSync (m : Mgr) (peer now : Nat) : Due :=
+  match m.lastSync.get peer with
+  | some t => dueAt m.interval t now
+  | none => .yes
+
+/-- `process_peer_digest(peer_digest, our_digest)` -/
+def Mgr.processPeerDigest (m : Mgr) (peer ours : TDigest) : Mgr × Option (List Nat) :=
+  if differsFrom ours.d peer.d then
+    ({ m with divergentPeers := NSet.insert peer.rid m.divergentPeers, peerDigests := NMap.insert peer.rid peer m.peerDigests },
+      some (divergentBuckets ours.d peer.d))
+  else
+    ({ m with divergentPeers := m.divergentPeers.filter (fun x => x != peer.rid), peerDigests := NMap.insert peer.rid peer m.peerDigests },
+      none)
+
+/-- `SyncRequest` -/
+structure Request where
+  fromR : Nat
+  toR : Nat
+  digest : TDigest
+  buckets : Option (List Nat)
+  deriving DecidableEq, Repr, Inhabited
+
+/-- `create_sync_request(peer, our_digest, buckets, current_time)` -/
+def Mgr.createSyncRequest (m : Mgr) (peer : Nat) (ours : TDigest) (buckets : Option (List Nat)) (now : Nat) :
+    Mgr × Request :=
+  ({ m with lastSync := NMap.insert peer now m.lastSync }, ⟨m.rid, peer, ours, buckets⟩)
+
+/-- `SyncResponse` (the deltas as `(key, value)`; `source_replica` of every delta is `fromR`) -/
+structure Response where
+  fromR : Nat
+  deltas : List (Nat × RV)
+  digest : TDigest
+  deriving DecidableEq, Repr, Inhabited
+
+/-- `handle_sync_request(request, our_keys)`: answer from the CURRENT state, then
+    `process_peer_digest(request.digest, &our_digest)` -/
+def Mgr.handleSyncRequest (H : Hasher) (m : Mgr) (req : Request) (π : List Nat) (s : NMap RV) : Mgr × Response :=
+  let ours := m.generateDigest H π s
+  let deltas := responseKeysWith currentRespOrder H currentStream (effectiveDepth currentDepthBound m.depth)
+    (effectiveLimit currentLimitAtLeastOne m.limit) π s req.buckets
+  ((m.processPeerDigest req.digest ours).1, ⟨m.rid, deltas, ours⟩)
+
+/-- `on_partition_healed(peer)` -/
+def Mgr.onPartitionHealed (m : Mgr) (peer : Nat) : Mgr :=
+  if m.autoSync then { m with divergentPeers := NSet.insert peer m.divergentPeers, lastSync := NMap.erase peer m.lastSync }
+  else m
+
+/-- `peers_needing_sync(current_time)` as a SET (the divergent peers come out of a `HashSet`):
+    the divergent peers and every peer whose last request is at least `sync_interval_ms` old;
+    `none` = the `u64` subtraction underflows for some peer -/
+def Mgr.peersNeedingSync (m : Mgr) (now : Nat) : Option NSet :=
+  if m.lastSync.any (fun p => decide (now < p.2)) then none
+  else some ((m.lastSync.filter (fun p => decide (now - p.2 ≥ m.interval))).foldl (fun acc p => NSet.insert p.1 acc) m.divergentPeers)
 
 end AE
 end RedisVerif
